@@ -247,5 +247,9 @@ def families(tier):
             # thorough tier (5 publications / symbolic gaps): nonlinear obligations go to a fresh solver so that the
             # incremental solver deciding branch feasibility is not slowed down by them (see symx.Ctx.check)
             f["isolate_checks"] = True
+            # z3 occasionally answers 'unknown' for a mixed integer/real (symgaps: nonlinear) path condition within the
+            # time limit; such paths are counted (paths_inconclusive_solver_unknown) and are outside the claim
+            f["allow_inconclusive_paths"] = True
+            f["bounds"] += "; paths whose condition z3 cannot decide within the time limit are counted and excluded"
             f["query_timeout_ms"] = 30000 if "symgaps" not in f["name"] else 10000
     return fams
